@@ -190,3 +190,119 @@ def observe_substance(s, inv, px, obs):
     for c in ("Z", "N", "e", "mass"):
         obs[px + "sum." + c] = tot[c]
     return obs
+
+
+# ----------------------------------------------------------------------------- composites and matter (C11, C12)
+
+FORMULA_POOL = ["H2O", "NaCl", "CO2", "N2", "O2", "Ar", "CH4", "C2H6O", "Ca(OH)2", "NH3", "H2SO4", "Fe2O3", "SiO2",
+                "C6H12O6", "He", "U{238}O2", "D2O", "Al2(SO4)3", "CaCO3", "KMnO4", "NaHCO3", "C8H18", "UF6", "Pb", "Au",
+                "B{11}N{14}H{1}6", "[p]", "H{1-1}", "Fe{56+2}O", "MgCl2", "HCl", "LiF", "TiO2", "ZnS", "Cu", "Xe{129}",
+                "C{13}O{18}2", "Na{+1}", "Cl{-1}", "T2O", "[n]", "Tc{98}", "Pu{239}O2"]
+
+
+def pick_species(rnd, natural, n):
+    """n distinct species texts usable in the given isotope mode (elements without abundances only with an isotope)."""
+    pool = [s for s in species_pool() if s["nuc"] or s["A"] or not no_abundance(s["el"])]
+    out, keys = [], set()
+    while len(out) < n:
+        sp = with_charge(rnd.choice(pool), rnd)
+        if sp.get("alias") and sp["ion"] and not sp.get("aliasfull"):
+            continue                     # 'D{-1}': open finding of C10, not the business of C11/C12
+        k = sp_text(sp)
+        if k not in keys:
+            keys.add(k); out.append(k)
+    return out
+
+
+def build_object(o, names, props, natural, d=None, v=None, form="dict"):
+    """o: object description emitted by TLC (cls, mode, given, vol, ud, uv).  Always fresh Quantity objects."""
+    kw = {}
+    if o.get("given") == "rho":
+        kw["mass_density"] = Quantity(d, o["ud"])
+    elif o.get("given") == "n":
+        kw["number_density"] = Quantity(d, o["ud"])
+    if o.get("vol"):
+        kw["volume"] = Quantity(v, o["uv"])
+    if o["cls"] == "element":
+        return Element(names[0], proportion=props[0], natural=natural, **kw)
+    form = o.get("form", form)
+    if o["cls"] == "substance":
+        if form == "text":            # a formula: species with integer counts
+            text = "".join(n + (str(int(p)) if int(p) != 1 else "") for n, p in zip(names, props))
+            return Substance(text, natural=natural, **kw)
+        return Substance(dict(zip(names, props)), natural=natural, **kw)
+    if form in ("text", "string"):
+        text = " ".join("%s <%s>" % (num_text(p), n) for n, p in zip(names, props))
+        return Material(text, natural=natural, norm_type=Norm[o["mode"]], **kw)
+    return Material(dict(zip(names, props)), natural=natural, norm_type=Norm[o["mode"]], **kw)
+
+
+def num_text(p):
+    """A proportion as the material expression syntax accepts it (digits, optional decimals; no exponent)."""
+    t = repr(float(p)) if float(p) != int(p) else str(int(p))
+    if "e" in t or "E" in t:
+        raise ValueError("proportion %r cannot be written without an exponent" % (p,))
+    return t
+
+
+def observe_fractions(obj, names, nm, obs):
+    dc = obj.data_composite(quantity=False)
+    for i, name in enumerate(names, 1):
+        obs["%s.m.%d" % (nm, i)] = obj.components[name].component_mass.value("Da")
+        obs["%s.x.%d" % (nm, i)] = dc[name].x
+        obs["%s.X.%d" % (nm, i)] = dc[name].X
+    obs[nm + ".sum.x"] = dc["sum"].x
+    obs[nm + ".sum.X"] = dc["sum"].X
+
+
+def observe_matter(obj, o, names, nm, obs):
+    obs[nm + ".rho"] = obj.mass_density.value("g/cm3")
+    obs[nm + ".n"] = obj.number_density.value("cm-3")
+    if o["vol"]:
+        obs[nm + ".mass"] = obj.mass.value("g")
+    dm = obj.data_matter(quantity=False)
+    cols = ["n", "rho"] + (["M"] if o["vol"] else [])
+    for i, name in enumerate(names, 1):
+        if o["cls"] == "element":
+            obs["%s.m.%d" % (nm, i)] = obj.component_mass.value("Da")
+        else:
+            obs["%s.m.%d" % (nm, i)] = obj.components[name].component_mass.value("Da")
+        for c in cols:
+            obs["%s.row.%s.%d" % (nm, c, i)] = dm[name][c]
+    if o["cls"] != "element":
+        for c in cols:
+            obs["%s.sum.%s" % (nm, c)] = dm["sum"][c]
+
+
+def replay_objects(rec, conc, what):
+    """Build the objects of one TLC scenario under one concretisation, observe, evaluate the obligations.
+    conc: {names, natural, inp: {path: value}, form}.  what: 'fractions' | 'matter'.
+    -> ('ok', None) | ('fail', detail)"""
+    from . import terms as T
+    obs, inp = {}, dict(conc["inp"])
+    env = T.Env(obs=obs, inp=inp, tab=tab)
+    built = []
+    for o in rec["objects"]:
+        try:
+            props = [T.ev(t, env) for t in o["props"]]
+            d = T.ev(o["d"], env) if what == "matter" else None
+            v = T.ev(o["v"], env) if what == "matter" and o["vol"] else None
+        except T.Missing as m:
+            return ("fail", {"failure": "wrong_value", "clause": "input of object %s needs %s" % (o["name"], m), "observed": obs})
+        desc = {"object": o["name"], "cls": o["cls"], "mode": o["mode"], "names": conc["names"], "props": props,
+                "natural": conc["natural"], "d": d, "ud": o.get("ud"), "v": v, "uv": o.get("uv"), "form": conc.get("form", "dict")}
+        built.append(desc)
+        try:
+            obj = build_object(o, conc["names"], props, conc["natural"], d, v, conc.get("form", "dict") if o["name"] == "A" else "dict")
+            if what == "fractions":
+                observe_fractions(obj, conc["names"], o["name"], obs)
+            else:
+                observe_matter(obj, o, conc["names"], o["name"], obs)
+        except Exception as e:
+            return ("fail", {"failure": "rejected", "clause": "object %s can be constructed and its tables obtained" % o["name"],
+                             "built": built, "expected": "an object", "observed": "raises " + repr(e)[:200]})
+    bad = T.failing(rec["obl"], env)
+    if bad:
+        return ("fail", {"failure": "wrong_value", "clause": "obligation " + "; ".join(b[0] for b in bad), "built": built,
+                         "expected": [[b[0], b[2]] for b in bad], "observed": [[b[0], b[1]] for b in bad]})
+    return ("ok", None)
